@@ -80,6 +80,15 @@ func directoryExists(entries []os.DirEntry, name string) bool {
 	return false
 }
 
+// isFile: a symbolic link counts as what it points to (a link to a directory is not a file, nor is a dangling one)
+func isFile(directory string, e os.DirEntry) bool {
+	if e.Type()&os.ModeSymlink != 0 {
+		info, err := os.Stat(directory + "/" + e.Name())
+		return err == nil && !info.IsDir()
+	}
+	return !e.IsDir()
+}
+
 func (path *Path) shrink() *Path {
 	return &Path{entries: path.entries[1:]}
 }
@@ -93,7 +102,7 @@ func (path *Path) GetFileList(currentDirectory string) []string {
 
 		var results []string
 		for _, e := range entries {
-			if !e.IsDir() && pathMatches(e.Name(), path.entries[0].value) {
+			if isFile(currentDirectory, e) && pathMatches(e.Name(), path.entries[0].value) {
 				results = append(results, currentDirectory+"/"+e.Name())
 			}
 		}
